@@ -11,7 +11,7 @@ CLAIMED = {
  "C08": ("lemmas over the proved C01/C02 time contracts discharged by the SMT solver + bounded run-time contracts on conversion chains through the real readers and writers",
          "P: resolution lemmas (one hop truncates to the format resolution, hops are idempotent, mixed ms/frame chains settle after one pass, frame numbers round-trip); B: caption sets through every single format, all 5x5 pairs and seeded chains of length 3-5, two passes: same cues, normalised text, times at the coarsest resolution, second pass changes nothing", "3 C08"),
  "C14": ("contract-based deductive verification of the language-selection helpers + bounded run-time contracts on multi-language sets through reference parsers and the real readers",
-         "P: get_languages is insertion order, legacy force= selection, SAMI paragraph language resolution; B: 1-4 languages with interleaved / coinciding / disjoint / earlier / empty-first cue times: SAMI SYNC blocks non-decreasing with each paragraph under its class in the block of its start, DFXP one div per language in order, both read back equal; force= / lang= select the named language; xml:lang fallbacks; SAMI order of first appearance", "3 C14"),
+         "P: get_languages is insertion order, legacy force= selection, SAMI paragraph language resolution, skeleton contracts of the six writers' write methods (which languages, in which order, each with its own captions); B: 1-4 languages with interleaved / coinciding / disjoint / earlier / empty-first cue times: SAMI SYNC blocks non-decreasing with each paragraph under its class in the block of its start, DFXP one div per language in order, both read back equal; force= / lang= select the named language; xml:lang fallbacks; SAMI order of first appearance", "3 C14"),
  "C11": ("ground evaluation of the style mappings + contract-based deductive verification with loop invariants (span balance of the DFXP writers, alternation pass of the SCC reader) + bounded round trips through the real parsers",
          "P-ground: style dict <-> SAMI CSS / DFXP attributes / WebVTT tags for every flag subset; P (every node sequence): DFXP span markup balanced, SCC italics alternate after the redundancy pass; B: exhaustive instruction-node sequences through _format_italics (balanced, same italic text), flat spans through DFXP/SAMI/WebVTT round trips (same marked characters, balanced markup and style nodes)", "3 C11"),
  "C04": ("contract-based deductive verification of the WebVTT entity-decoding order on structured strings + bounded run-time contracts with independent serialisers",
@@ -21,15 +21,15 @@ CLAIMED = {
  "C03": ("bounded run-time contracts with independent conformant parsers (the text path of the writers goes through bs4 / multi-character replace chains, outside the deductive subset); span-markup balance of the DFXP writer by loop invariant",
          "B: adversarial / metacharacter / Unicode lines x line-structure variants x seven writers parsed by reference parsers (strict XML, HTML, WebVTT, SRT, MicroDVD grammars); escape contracts exhaustive on short strings. P: <span> markup balance (see C07_spans)", "3 C03"),
  "C16": ("contract-based deductive verification with a loop invariant (correct_last_timing over a field-array heap) + bounded run-time conservation contracts on generated roll-up / paint-on programs",
-         "P (any number of captions): forced timing correction ends every caption still being edited at the given time, so each roll-up caption ends exactly when the next begins; B: roll-up (depth 2-4, fixed/moving base rows, doubled, drop/non-drop, gaps) and paint-on programs: every transmitted row exactly once, in order, kept together, ordered, start < end, end = next start", "3 C16"),
+         "P (any number of captions): forced timing correction ends every caption still being edited at the given time, so each roll-up caption ends exactly when the next begins; TimingCorrectingCaptionList.append / extend skeletons (kept captions in order, all parts of the previous caption closed once); B: roll-up (depth 2-4, fixed/moving base rows, doubled, drop/non-drop, gaps) and paint-on programs: every transmitted row exactly once, in order, kept together, ordered, start < end, end = next start", "3 C16"),
  "C05": ("ground evaluation over the CEA-608 code tables + contract-based deductive verification (position mapping, tracker transition function, loop-invariant proof of the italics alternation pass) + bounded programs against a reference CEA-608 decoder",
-         "P-ground: character / PAC / tab-offset tables agree with CEA-608, doubled codes count once for every table word (PAC TO PAC TO as a unit), backspace / extended-character replacement; P: (row, col) -> safe-area percentages, position-tracker transitions, italics nodes alternate after the redundancy pass for any node list; B: pop-on programs vs a reference decoder (one known finding: new caption one row below the previous one)", "3 C05"),
+         "P-ground: character / PAC / tab-offset tables agree with CEA-608, doubled codes count once for every table word (PAC TO PAC TO as a unit), backspace / extended-character replacement; P: (row, col) -> safe-area percentages, position-tracker transitions, questions, acknowledgements and defaults for every state, italics nodes alternate after the redundancy pass for any node list; B: pop-on programs vs a reference decoder (one known finding: new caption one row below the previous one)", "3 C05"),
  "C17": ("ground evaluation over the code tables + contract-based deductive verification (AST->SMT VCs: symbolic string lengths, float standard model on the PASS 2-3 region) + bounded round trips through a reference CEA-608 decoder",
          "P-ground: every byte the writer can emit has odd parity, PAC rows 1-15, control words are the CEA-608 codes; P: half-word / word-boundary arithmetic of the code string, PASS 2-3 transmission times (words+8 frames early, erase line kept only if >3 frames before the next line, non-negative non-decreasing times) for two captions; B: timestamp formatting around every boundary, full round trips (reference decoder + own reader)", "3 C17"),
  "C06": ("contract-based deductive verification (AST->SMT VCs: float standard model for the timecode arithmetic, loop invariants over a field-array heap for the caption-list corrections) + bounded run-time contracts on generated pop-on programs",
-         "P: timecode + frames -> microseconds (drop / non-drop 1001/1000, offset, floor at 0) within 16 ulp, get_time adds the counted frames, exactly one frame per word, gap under five frames closed / longer kept for any batch length, trailing captions without end last four seconds for any list length; B: programs x drop/non-drop x doubled x inline/separate EDM x gaps x offsets against exact-rational reference timing (one known finding: offset beyond a caption end)", "3 C06"),
+         "P: timecode + frames -> microseconds (drop / non-drop 1001/1000, offset, floor at 0) within 16 ulp, get_time adds the counted frames, exactly one frame per word, gap under five frames closed / longer kept for any batch length (and on all parts of the previous caption: append / extend skeletons), trailing captions without end last four seconds for any list length; B: programs x drop/non-drop x doubled x inline/separate EDM x gaps x offsets against exact-rational reference timing (one known finding: offset beyond a caption end)", "3 C06"),
  "C10": ("frame / object-invariant obligations discharged by a syntactic effect checker over the real ASTs + bounded run-time history and isolation contracts incl. hash seeds",
-         "P-frame: every attribute a reader.read() reads is plain configuration or assigned in that call before its first read (so earlier reads cannot influence it), no mutable default arguments, no module/class-level mutable state, no iteration order from sets, parser helpers built per call; B: every order of two documents on one reader, edits of one result, interleaving across formats, four hash seeds", "3 C10"),
+         "P-frame: every attribute a reader.read() reads is plain configuration or assigned in that call before its first read (so earlier reads cannot influence it), no mutable default arguments, no module/class-level mutable state, no store to state of imported (third-party) objects, no iteration order from sets, parser helpers built per call; B: every order of two documents on one reader, edits of one result, interleaving across formats, four hash seeds", "3 C10"),
  "C09": ("frame (reads/modifies / object-invariant) obligations discharged by a syntactic effect checker over the real ASTs + bounded run-time snapshot and determinism contracts incl. hash seeds",
          "P-frame: every writer deep-copies its input before any impure use, every attribute a write() reads is configuration or assigned in that call first (so any interleaving of writes on one object behaves like a fresh writer), no iteration order from sets, no module/class-level mutable state; B: snapshots before/after, repeated / fresh / interleaved writes, four hash seeds", "3 C09"),
  "C20": ("contract-based deductive verification over abstract strings (AST->SMT VCs; a string is known only through uninterpreted observations) + exhaustive bounded enumeration of short strings",
@@ -45,7 +45,7 @@ CLAIMED = {
  "C18": ("contract-based deductive verification (AST->SMT VCs on __eq__/__hash__/parsers, bottom-up with callee contracts; z3 regular-language equivalence for the size grammar) + bounded run-time contracts for float printing",
          "P: eq iff same class and components equal and equal => equal hash for the six classes (modular), receiver-unchanged frames of every transformer, Size.from_string language = grammar over the property alphabet, parsed value/unit, two-size and padding shorthand parsing; B: printing/re-parsing (dtoa) over a value grid, exhaustive short strings, pair grid", "3 C18"),
  "C02": ("contract-based deductive verification (AST->SMT VCs on the writers' time formatting functions) + bounded run-time contracts with reference parsers",
-         "P: shared hh:mm:ss formatter, WebVTT timestamp, MicroDVD frames, SRT timing lines (2 captions), DFXP p begin/end, SAMI sync decision per call - all for every instant below 24 h, int and SCC-style float times; B: all seven writers on generated caption sets parsed by independent reference parsers", "3 C02"),
+         "P: shared hh:mm:ss formatter, WebVTT timestamp, MicroDVD frames, SRT and MicroDVD _recreate_lang for any number of captions (loop invariants over z3 sequences), skeleton contracts of the SRT / MicroDVD / DFXP / SAMI write methods, DFXP p begin/end, SAMI sync decision per call - all for every instant below 24 h, int and SCC-style float times; B: all seven writers on generated caption sets parsed by independent reference parsers", "3 C02"),
  "C01": ("contract-based deductive verification (AST->SMT VCs on the reader time-expression functions) + bounded run-time contracts on whole documents",
          "P: SRT/WebVTT/DFXP (clock, frames, offset, begin+dur)/MicroDVD time functions proved for all inputs of the grammar shapes against exact denotations; B: whole-document reads incl. SAMI over generated documents", "3 C01"),
 }
